@@ -662,3 +662,80 @@ pub fn check(prop: &str, tier: Tier, verif_seed: u64) -> i32 {
     }
     exit
 }
+
+// ------------------------------------------------------------------------------------------------
+// determinism proof of the simulator itself
+
+fn report_line(prop: &str, tier: Tier, seed: u64, index: u64, extra: &[String]) -> String {
+    let out = Command::new(exe())
+        .arg("cell")
+        .args(["--prop", prop, "--seed", &seed.to_string(), "--index", &index.to_string(), "--tier", tier.name()])
+        .args(extra)
+        .stdin(Stdio::null())
+        .stderr(Stdio::null())
+        .output()
+        .expect("spawn cell");
+    String::from_utf8_lossy(&out.stdout)
+        .lines()
+        .find(|l| l.starts_with("REPORT "))
+        .unwrap_or("NO-REPORT")
+        .to_string()
+}
+
+/// Every cell is executed twice in separate processes: once in a sequential pass (one worker) and
+/// once in a 16-worker pass in shuffled order. The complete cell reports (workload, counters,
+/// trace hashes, violations) must be byte-identical.
+pub fn selfcheck(props: &[String], cells_per_prop: u64, verif_seed: u64) -> i32 {
+    let t0 = Instant::now();
+    let mut jobs: Vec<(String, u64, u64, Vec<String>)> = vec![];
+    for prop in props {
+        let extra = plan::prepare_inputs(prop, Tier::Quick);
+        let n = plan::n_cells(prop, Tier::Quick);
+        // spread over the whole index range so that every workload family is included
+        let stride = (n / cells_per_prop).max(1);
+        for j in 0..cells_per_prop.min(n) {
+            let i = j * stride;
+            jobs.push((prop.clone(), i, cell_seed(verif_seed, prop, i), extra.args_for(i)));
+        }
+    }
+    let first: Vec<String> = jobs
+        .iter()
+        .map(|(p, i, seed, extra)| report_line(p, Tier::Quick, *seed, *i, extra))
+        .collect();
+    let mut order: Vec<usize> = (0..jobs.len()).collect();
+    crate::rng::Rng::new(verif_seed ^ 0x5e1f).shuffle(&mut order);
+    let second: Mutex<Vec<Option<String>>> = Mutex::new(vec![None; jobs.len()]);
+    let next = AtomicU64::new(0);
+    std::thread::scope(|scope| {
+        for _ in 0..16 {
+            scope.spawn(|| {
+                loop {
+                    let k = next.fetch_add(1, Ordering::SeqCst) as usize;
+                    if k >= order.len() {
+                        break;
+                    }
+                    let j = order[k];
+                    let (p, i, seed, extra) = &jobs[j];
+                    let line = report_line(p, Tier::Quick, *seed, *i, extra);
+                    second.lock().unwrap()[j] = Some(line);
+                }
+            });
+        }
+    });
+    let second = second.into_inner().unwrap();
+    let mut bad = 0;
+    for (j, (p, i, seed, _)) in jobs.iter().enumerate() {
+        let same = second[j].as_deref() == Some(first[j].as_str()) && first[j] != "NO-REPORT";
+        if !same {
+            bad += 1;
+            println!("HARNESS-ERROR: cell {i} of {p} (seed {seed}) differs between two executions");
+        }
+    }
+    println!(
+        "selfcheck: {} cells x 2 executions (sequential pass, then 16 workers in shuffled order), {} mismatches, {:.1}s",
+        jobs.len(),
+        bad,
+        t0.elapsed().as_secs_f64()
+    );
+    if bad > 0 { 2 } else { 0 }
+}
